@@ -242,9 +242,11 @@ func H_SharedCodeConc() {
 		})
 	}
 	vrt.RaceDetect(vrt.Param("race", 1) == 1)
+	vrt.G2(vrt.Param("g2", 0))
 	vrt.Go("A", func() { run(0) })
 	vrt.Go("B", func() { run(1) })
 	vrt.WaitAll()
+	vrt.G2(0)
 	vrt.Cover("both_done")
 	for g := 0; g < 2; g++ {
 		vrt.Assert(!panicked[g], "C09.panic", "goroutine", g, "panicked while resolving")
